@@ -128,7 +128,7 @@ func itoa(i int) string {
 }
 
 // --- authboss.User / AuthableUser
-func (u *User) GetPID() string       { return u.PID }
+func (u *User) GetPID() string { return u.PID }
 func (u *User) PutPID(s string) {
 	u.PID = s
 	if u.Email == "" {
@@ -179,14 +179,14 @@ func (u *User) GetOAuth2Expiry() time.Time     { return u.OAuth2Expiry }
 func (u *User) PutOAuth2Expiry(t time.Time)    { u.OAuth2Expiry = t }
 
 // --- otp.User, twofactor.User, totp2fa.User, sms2fa.User
-func (u *User) GetOTPs() string             { return u.OTPs }
-func (u *User) PutOTPs(s string)            { u.OTPs = s }
-func (u *User) GetRecoveryCodes() string    { return u.RecoveryCodes }
-func (u *User) PutRecoveryCodes(s string)   { u.RecoveryCodes = s }
-func (u *User) GetTOTPSecretKey() string    { return u.TOTPSecretKey }
-func (u *User) PutTOTPSecretKey(s string)   { u.TOTPSecretKey = s }
-func (u *User) GetSMSPhoneNumber() string   { return u.SMSPhone }
-func (u *User) PutSMSPhoneNumber(s string)  { u.SMSPhone = s }
+func (u *User) GetOTPs() string            { return u.OTPs }
+func (u *User) PutOTPs(s string)           { u.OTPs = s }
+func (u *User) GetRecoveryCodes() string   { return u.RecoveryCodes }
+func (u *User) PutRecoveryCodes(s string)  { u.RecoveryCodes = s }
+func (u *User) GetTOTPSecretKey() string   { return u.TOTPSecretKey }
+func (u *User) PutTOTPSecretKey(s string)  { u.TOTPSecretKey = s }
+func (u *User) GetSMSPhoneNumber() string  { return u.SMSPhone }
+func (u *User) PutSMSPhoneNumber(s string) { u.SMSPhone = s }
 func (u *User) GetArbitrary() map[string]string {
 	m := map[string]string{}
 	for k, v := range u.Arbitrary {
